@@ -378,6 +378,7 @@ type schedSnap struct {
 	closed   []bool
 	closing  []bool // Close has been called (it may not have returned yet)
 	ppIdle   bool   // processPending was parked in its top-level select
+	pcIdle   bool   // processCompleted was parked in its select (no event taken and not yet handled, e.g. during a slow Close)
 }
 
 type schedL2 struct{ kind, detail string }
@@ -977,7 +978,7 @@ func (r *schedRun) setup() {
 }
 
 func (r *schedRun) snap() schedSnap {
-	sn := schedSnap{loaded: map[int]int{}, ppIdle: r.cen.ppIdle}
+	sn := schedSnap{loaded: map[int]int{}, ppIdle: r.cen.ppIdle, pcIdle: r.cen.pcIdle}
 	// everything else is parked; loadedMu may be held by a parked expireRunner, so do not insist on it
 	locked := r.s.loadedMu.TryLock()
 	for path, ref := range r.s.loaded {
@@ -1389,7 +1390,7 @@ func (r *schedRun) monitors(e schedEv, subq *schedReq, sn schedSnap) {
 	// reuse: the model's runner is loaded, finished loading, has the same options and answers pings: if the request was
 	// answered in this step (processPending was idle and decided on exactly the previous quiescent state), the answer
 	// must be that runner and no runner may have been started for it
-	if subq != nil {
+	if subq != nil && r.prev.pcIdle {
 		if id, ok := r.prev.loaded[e.a]; ok && id >= 0 && !r.prev.closed[id] && !r.prev.closing[id] && r.mocks[id].opts == e.b && r.mocks[id].pingOK && !r.mocks[id].pingBlock && !r.mocks[id].waiting {
 			for _, m := range r.mocks {
 				if m.loadReq == subq.id {
@@ -1407,7 +1408,7 @@ func (r *schedRun) monitors(e schedEv, subq *schedReq, sn schedSnap) {
 		}
 	}
 	// victim choice: a `submit` taken by an idle processPending decides on exactly the previous quiescent state.
-	if subq != nil {
+	if subq != nil && r.prev.pcIdle {
 		for id := range r.prev.sess {
 			if r.prev.sess[id] <= 0 || sn.sess[id] != 0 || r.mocks[id].model == e.a || r.prev.closed[id] {
 				continue
@@ -1442,7 +1443,7 @@ func (r *schedRun) monitors(e schedEv, subq *schedReq, sn schedSnap) {
 	// request and decided on exactly the previous quiescent state.  The request's model was not loaded (no reload), and
 	// now processPending waits for an unload although a runner that was idle then is still loaded and idle, nothing is
 	// closing and processCompleted has nothing left to do: the victim it waits for is a busy one.
-	if subq != nil && r.prev.ppIdle && r.cen.ppWaitUnload && r.cen.pcIdle && r.cen.mutex == 0 && subq.replies() == 0 {
+	if subq != nil && r.prev.ppIdle && r.prev.pcIdle && r.cen.ppWaitUnload && r.cen.pcIdle && r.cen.mutex == 0 && subq.replies() == 0 {
 		if _, reload := r.prev.loaded[e.a]; !reload {
 			closing := false
 			for _, m := range r.mocks {
